@@ -1147,7 +1147,7 @@ pub fn gen_scene(r: &mut Rng, k: &Knobs, cover: &mut crate::Cover) -> Scene {
         let len = leading_blob_len_for(res);
         items.push(Item::Blob(gen_blob_data(r, len, 7)));
     }
-    let n_ext = if k.wild_ext { 1 + r.usize(3) } else { r.usize(3) };
+    let n_ext = if k.wild_ext || k.ext_std_names { 1 + r.usize(3) } else { r.usize(3) };
     for _ in 0..n_ext {
         let e = gen_extension(r, k, cover);
         // one URL per prefix: two prefixes bound to one namespace URI are the same XML namespace
